@@ -148,7 +148,9 @@ def check_dispatcher(ctx: Ctx, disp: FuncInfo) -> set:
     out = set()
     node = disp.body[0] if disp.body else None
     # docstring tolerated
-    stmts = [s for s in disp.body if not (isinstance(s, ast.Expr) and isinstance(s.value, ast.Constant))]
+    from ..core import real_body
+
+    stmts = real_body(disp.body)
     if len(stmts) != 1 or not isinstance(stmts[0], ast.If):
         raise AnchorError(disp.short, "dispatcher is not a single if/elif chain")
     cur = stmts[0]
